@@ -17,6 +17,7 @@ VERIF = os.path.dirname(os.path.dirname(os.path.abspath(__file__)))
 REPO = os.environ.get("VERIF_REPO", "/repo")
 LEAN_DIR = os.environ.get("VERIF_LEAN") or os.path.join(VERIF, "lean")   # VERIF_LEAN: private copy for runs on changed trees (scripts/seeded.py)
 SCRATCH_ROOT = os.environ.get("VERIF_SCRATCH", "/var/tmp/asl-verif-main")
+OUT_DIR = os.environ.get("VERIF_OUT") or VERIF     # evidence/ and replays/ go here (runs on changed trees write elsewhere)
 GUARD = "ASL_VERIF"
 ALLOWED_AXIOMS = {"propext", "Classical.choice", "Quot.sound"}
 FORBIDDEN_RE = re.compile(
@@ -363,7 +364,7 @@ class Result:
         self.coverage = {}
         self.assumptions = []
         self.notes = []
-        d = os.path.join(VERIF, "replays", self.prop)
+        d = os.path.join(OUT_DIR, "replays", self.prop)
         if os.path.isdir(d):
             for f in os.listdir(d):
                 try:
@@ -372,7 +373,7 @@ class Result:
                     pass
 
     def replay_path(self, name):
-        d = os.path.join(VERIF, "replays", self.prop)
+        d = os.path.join(OUT_DIR, "replays", self.prop)
         os.makedirs(d, exist_ok=True)
         return os.path.join(d, name)
 
@@ -394,8 +395,8 @@ class Result:
             cov["known_findings_reproduced"] = self.known_hits
         if self.notes:
             cov["notes"] = self.notes
-        os.makedirs(os.path.join(VERIF, "evidence"), exist_ok=True)
-        with open(os.path.join(VERIF, "evidence", self.prop + ".json"), "w") as f:
+        os.makedirs(os.path.join(OUT_DIR, "evidence"), exist_ok=True)
+        with open(os.path.join(OUT_DIR, "evidence", self.prop + ".json"), "w") as f:
             json.dump(ev, f, indent=1, default=str)
         for k in self.known_hits:
             print("KNOWN-FINDING: property=%s %s" % (self.prop, k))
